@@ -40,6 +40,9 @@
             !exists|h: StoredPointHeader, rest: Seq<u8>| old(reader).remaining() == #[trigger] (enc_header(h) + rest)),
 //@ entry
     proof { axiom_primitives(); lemma_u8_delimiting(); lemma_header_split(); }
+//@ fn StoredPointHeader::new
+//@ spec
+    ensures res.manifest_uri == manifest_uri, res.rpki_notify == rpki_notify, res.update_status is LastAttempt,
 //@ global
 // ---- the format, field by field ------------------------------------------------------------
 spec fn enc_ustatus(s: UpdateStatus) -> Seq<u8> {
@@ -53,10 +56,14 @@ spec fn enc_header(h: StoredPointHeader) -> Seq<u8> {
 }
 
 proof fn lemma_u8_delimiting()
-    ensures self_delimiting::<u8>(),
+    ensures self_delimiting::<u8>(), injective::<u8>(),
+        forall|a: u8, x: Seq<u8>, b: u8, y: Seq<u8>| #[trigger] (a.enc() + x) == #[trigger] (b.enc() + y) ==> a == b,
 {
+    assert forall|a: u8, b: u8| #[trigger] a.enc() == #[trigger] b.enc() implies a == b by {
+        assert(a.enc()[0] == a); assert(b.enc()[0] == b);
+    }
     assert forall|a: u8, x: Seq<u8>, b: u8, y: Seq<u8>| #[trigger] (a.enc() + x) == #[trigger] (b.enc() + y)
-        implies a == b && x == y by {
+        implies a == b && a.enc() == b.enc() && x == y by {
         assert((a.enc() + x)[0] == a);
         assert((b.enc() + y)[0] == b);
         assert((a.enc() + x).skip(1) =~= x);
@@ -65,22 +72,31 @@ proof fn lemma_u8_delimiting()
 }
 
 // ---- C23 (proved here, assumed in unit store_crash): headers are self-delimiting and not empty ----
+// Two headers with the same bytes agree on everything but the sub-second part of the time.
+spec fn same_stored_header(a: StoredPointHeader, b: StoredPointHeader) -> bool {
+    &&& enc_header(a) == enc_header(b)
+    &&& a.manifest_uri == b.manifest_uri
+    &&& a.rpki_notify == b.rpki_notify
+    &&& (a.update_status is Success <==> b.update_status is Success)
+}
 proof fn lemma_header_codec()
     ensures
         forall|a: StoredPointHeader, x: Seq<u8>, b: StoredPointHeader, y: Seq<u8>|
-            #[trigger] (enc_header(a) + x) == #[trigger] (enc_header(b) + y) ==> a == b && x == y,
+            #[trigger] (enc_header(a) + x) == #[trigger] (enc_header(b) + y) ==> same_stored_header(a, b) && x == y,
         forall|h: StoredPointHeader| (#[trigger] enc_header(h)).len() > 0,
 {
     axiom_primitives(); lemma_u8_delimiting(); lemma_header_split(); lemma_ustatus_split();
     assert forall|a: StoredPointHeader, x: Seq<u8>, b: StoredPointHeader, y: Seq<u8>|
-            #[trigger] (enc_header(a) + x) == #[trigger] (enc_header(b) + y) implies a == b && x == y by {
+            #[trigger] (enc_header(a) + x) == #[trigger] (enc_header(b) + y) implies same_stored_header(a, b) && x == y by {
         let ra = a.manifest_uri.enc() + (a.rpki_notify.enc() + (enc_ustatus(a.update_status) + x));
         let rb = b.manifest_uri.enc() + (b.rpki_notify.enc() + (enc_ustatus(b.update_status) + y));
         assert(enc_header(a) + x == 2u8.enc() + ra);
         assert(enc_header(b) + y == 2u8.enc() + rb);
         assert(ra == rb);
+        assert(a.manifest_uri.enc() == b.manifest_uri.enc());
         assert(a.manifest_uri == b.manifest_uri);
         assert(a.rpki_notify.enc() + (enc_ustatus(a.update_status) + x) == b.rpki_notify.enc() + (enc_ustatus(b.update_status) + y));
+        assert(a.rpki_notify.enc() == b.rpki_notify.enc());
         assert(a.rpki_notify == b.rpki_notify);
         assert(enc_ustatus(a.update_status) + x == enc_ustatus(b.update_status) + y);
         lemma_ustatus_delimiting(a.update_status, x, b.update_status, y);
@@ -88,7 +104,7 @@ proof fn lemma_header_codec()
 }
 proof fn lemma_ustatus_delimiting(a: UpdateStatus, x: Seq<u8>, b: UpdateStatus, y: Seq<u8>)
     requires enc_ustatus(a) + x == enc_ustatus(b) + y,
-    ensures a == b && x == y,
+    ensures enc_ustatus(a) == enc_ustatus(b) && (a is Success <==> b is Success) && x == y,
 {
     axiom_primitives(); lemma_u8_delimiting(); lemma_ustatus_split();
     let (ta, ga) = match a { UpdateStatus::Success(t) => (t, 0u8), UpdateStatus::LastAttempt(t) => (t, 1u8) };
@@ -96,6 +112,9 @@ proof fn lemma_ustatus_delimiting(a: UpdateStatus, x: Seq<u8>, b: UpdateStatus, 
     assert(enc_ustatus(a) + x == ga.enc() + (ta.enc() + x));
     assert(enc_ustatus(b) + y == gb.enc() + (tb.enc() + y));
     assert(ga == gb && ta.enc() + x == tb.enc() + y);
+    assert(ta.enc() == tb.enc() && x == y);
+    assert(enc_ustatus(a) == ga.enc() + ta.enc());
+    assert(enc_ustatus(b) == gb.enc() + tb.enc());
 }
 
 // Splitting an encoding followed by anything into its first field and the rest.
